@@ -303,17 +303,50 @@ func TestC18Copy(t *testing.T) {
 	}))
 }
 
+// typeContent renders a type's name and field definitions (nothing else).
+func typeContent(typ jsonapi.Type) string {
+	var b strings.Builder
+
+	fmt.Fprintf(&b, "%q[", typ.Name)
+
+	for _, n := range gen.SortedKeys(typ.Attrs) {
+		a := typ.Attrs[n]
+		fmt.Fprintf(&b, "%q:{%q %d %v} ", n, a.Name, a.Type, a.Nullable)
+	}
+
+	b.WriteString("][")
+
+	for _, n := range gen.SortedKeys(typ.Rels) {
+		fmt.Fprintf(&b, "%q:%s ", n, gen.RelString(typ.Rels[n]))
+	}
+
+	b.WriteString("]")
+
+	return b.String()
+}
+
 // TestC18Type: Type.Copy is equal to and independent of its source.
 func TestC18Type(t *testing.T) {
 	r := rec.For("C18Type")
 
 	rapid.Check(t, prop(r, func(t *rapid.T) {
 		ts := filterType(t, 4, true)
+		ts.Struct = rapid.IntRange(0, 2).Draw(t, "struct") == 0
 		ss := gen.BuildSchema([]gen.TypeSpec{ts})
 		src := ss.Schema.Types[0]
 
+		// The source may already have been in use (resources created from it)
+		// when it is copied.
+		usedBefore := rapid.Bool().Draw(t, "usedBefore")
+
 		var cp jsonapi.Type
-		if p := oracle.Try(func() { cp = src.Copy() }); p != nil {
+		if p := oracle.Try(func() {
+			if usedBefore {
+				src.New()
+			}
+
+			cp = src.Copy()
+		}); p != nil {
 			t.Fatalf("C18 violated: Type.Copy %s", p)
 		}
 
@@ -330,7 +363,8 @@ func TestC18Type(t *testing.T) {
 			}
 
 			snap := oracle.SnapshotType(*y)
-			op := rapid.SampledFrom([]string{"AddAttr", "AddRel", "RemoveAttr", "RemoveRel", "map-insert", "map-delete", "rename"}).Draw(t, "op")
+			op := rapid.SampledFrom([]string{"AddAttr", "AddRel", "RemoveAttr", "RemoveRel", "map-insert", "map-delete", "rename", "New"}).Draw(t, "op")
+			newMsg := ""
 
 			if p := oracle.Try(func() {
 				switch op {
@@ -357,9 +391,33 @@ func TestC18Type(t *testing.T) {
 					}
 				case "rename":
 					x.Name += "x"
+				case "New":
+					// A resource created from one of the two is of that one's
+					// type as it is now; for a soft type it is a view on it,
+					// so a field added through the resource is an edit of x.
+					res := x.New()
+					if res == nil {
+						newMsg = "New() returned nil"
+						return
+					}
+
+					// (a struct-backed type creates wrapped structs, whose
+					// type is the struct's whatever was done to x since)
+					if got, want := typeContent(res.GetType()), typeContent(*x); got != want && !ts.Struct {
+						newMsg = fmt.Sprintf("New() returned a resource of type %s, the type is %s", got, want)
+						return
+					}
+
+					if sr, ok := res.(*jsonapi.SoftResource); ok {
+						sr.AddAttr(jsonapi.Attr{Name: fmt.Sprintf("vianew%d", i), Type: jsonapi.AttrTypeString})
+					}
 				}
 			}); p != nil {
 				t.Fatalf("C18 violated: %s on the %s type: %s", op, xname, p)
+			}
+
+			if newMsg != "" {
+				t.Fatalf("C18 violated: on the %s type (source used before the copy: %v): %s\nhistory: %s", xname, usedBefore, newMsg, strings.Join(history, "; "))
 			}
 
 			history = append(history, op+" on the "+xname)
